@@ -87,6 +87,11 @@ func (s scen) config(rp **rec) *stack.Config {
 					rt.Error(n.ReqID, "Function.Boom", []byte(`{"errorMessage":"boom"}`))
 					r.curDone = true
 					continue
+				case "fnerror-exit":
+					// the runtime reports its error and dies: the platform's own failure report is then a second submission
+					rt.Error(n.ReqID, "Function.Boom", []byte(`{"errorMessage":"boom"}`))
+					r.curDone = true
+					rt.Exit(1)
 				case "extexit":
 					rt.Sleep(300 * 1e6) // give the extension's exit time to land first
 				}
@@ -318,7 +323,7 @@ func init() {
 		if tier == "thorough" {
 			b = 2
 		}
-		for _, end := range []string{"success", "fnerror", "timeout", "crash", "extexit"} {
+		for _, end := range []string{"success", "fnerror", "fnerror-exit", "timeout", "crash", "extexit"} {
 			kinds := []string{"stale-response", "stale-error", "older-response", "unknown-response", "duplicate-response", "duplicate-error"}
 			if end == "success" || end == "timeout" {
 				kinds = append(kinds, "case-variant-response", "case-variant-error")
